@@ -1017,6 +1017,47 @@ example : ∃ cfg, cfgAt store0 client0 (call0 none) = some cfg ∧
     (connectArgs subprotocol cfg).extraHeaders = [("Authorization", .str "Bearer service"), ("X-Tenant", .str "acme")] :=
   ⟨_, rfl, rfl⟩
 
+/-- **current_configuration_each_time.**  Subscriptions on ONE client object with the OWNER'S edits in
+    between - `client.ws_connection_init_payload = …` (a refreshed token), `client.ws_headers = …`,
+    `ws_origin`, `ws_url` rebound, any dict the client refers to mutated in place: the store afterwards
+    is the initial store with exactly the owner's edits applied (plus new objects), the client object
+    is the owner's, and EVERY subscription shows what it shows alone on a client configured as the
+    edits so far left it - nothing computed by an earlier subscription (a serialised init message,
+    merged headers) survives in the client. -/
+theorem current_configuration_each_time (v : Variant) (s : Store) (cl : ClientObj) (acts : List Action)
+    (hwf : WfActs s cl acts) :
+    (∃ g, (runActs v (execOf v) s cl acts).1 = (editsOnly s cl acts).1 ++ g) ∧
+    (runActs v (execOf v) s cl acts).2.1 = (editsOnly s cl acts).2 ∧
+    (runActs v (execOf v) s cl acts).2.2 = expectedObs v runPlain s cl acts := by
+  obtain ⟨g', hg⟩ := runActs_eq v (execOf v) (execOf_viaMerge v) acts s cl [] hwf
+  simp only [List.append_nil] at hg
+  rw [hg, execOf_eq_plain]
+  exact ⟨⟨g', rfl⟩, rfl, rfl⟩
+
+/-- non-vacuity, the token refresh: object 0 = `{"token": "t1"}`, object 1 = `{"token": "t2"}`; subscribe,
+    `client.ws_connection_init_payload = <object 1>`, subscribe, mutate object 1 in place, subscribe:
+    the three `connection_init` messages carry t1, t2, t3. -/
+def storeT : Store := [[("token", .str "t1")], [("token", .str "t2")], []]
+def clientT : ClientObj := { url := "ws://h/graphql", wsHeaders := 2, origin := none, initPayload := some 0 }
+def subT : Action := .sub { call := call0 none, vars := none, frames := [] }
+def actsT : List Action := [subT, .edit (.setInit (some 1)), subT, .edit (.write 1 [("token", .str "t3")]), subT]
+
+example : WfActs storeT clientT actsT := ⟨rfl, rfl, rfl, rfl, rfl, trivial⟩
+
+example : ((expectedObs .plain runPlain storeT clientT actsT).map fun o => o.map fun ob => ob.events.drop 1) =
+    [some [.send (.connectionInit (some (.obj [("token", .str "t1")])))],
+     some [.send (.connectionInit (some (.obj [("token", .str "t2")])))],
+     some [.send (.connectionInit (some (.obj [("token", .str "t3")])))]] := by
+  simp [expectedObs, actsT, subT, alone, cfgAt, storeT, clientT, extraAt, initAt, call0, Edit.apply, observe, refuseAt,
+    runPlain_eq, runT, J.hasKey, J.lookup, opened, initOf, J.truthy]
+
+/-- an `error` message with an empty or a missing payload is the error letter with no entries: the
+    stream ends with the multi-error (`error_raises_multi`, `outcome_as_demanded` apply) -/
+example : letter (.json (.obj [("id", .str "1"), ("type", .str "error")])) = .error [] ∧
+    letter (.json (.obj [("id", .str "1"), ("type", .str "error"), ("payload", .arr [])])) = .error [] ∧
+    continuesF (.json (.obj [("type", .str "error")])) = false := by
+  refine ⟨?_, ?_, ?_⟩ <;> simp [letter, J.lookup, continuesF, Letter.continues]
+
 /-! ## 10. The consumer's side: refused connections, abandoned iterators -/
 
 /-- `ws_connect(...)` is called with the same arguments and `__aenter__` raises: the exception
